@@ -1,7 +1,7 @@
 (* C07 — final form of the lemmas quoted by Props.v. *)
 From Coq Require Import ZArith List Bool Reals Lra Lia.
 From ADV Require Import Base.Num C07.Model C07.Spec C07.ProofsBase C07.ProofsRprop C07.ProofsGD
-  C07.ProofsLS C07.ProofsBfgs C07.ProofsDense.
+  C07.ProofsLS C07.ProofsBfgs C07.ProofsDense C07.ProofsAdam.
 Import ListNotations.
 Open Scope Z_scope.
 
@@ -101,6 +101,24 @@ Lemma rprop_dense_stop_partial_l (P : rp_params) fuel x0 x tr :
 Proof.
   intros H. pose proof (rprop_dense_ok NM F HK CS P fuel x0) as R. rewrite H in R.
   destruct R as (W & _ & S & _). split; [exact W | eapply S; reflexivity].
+Qed.
+
+(* ---------------------------------------------------------------- adam (dense, with gradient) *)
+Lemma adam_stop_l (P : ad_params) fuel x0 x tr :
+  adam_dense NM F HK CS P fuel x0 = (Converged x, tr) -> wf tr /\ stop_ok NM (ad_eps P) tr x.
+Proof.
+  intros H. pose proof (adam_ok NM F HK CS P fuel x0) as R. rewrite H in R.
+  destruct R as (G & S & _). split; [apply (good_wf _ _ _ _ G) | apply S; reflexivity].
+Qed.
+Lemma adam_hooks_l (P : ad_params) fuel x0 : hooks_ok (snd (adam_dense NM F HK CS P fuel x0)).
+Proof. destruct (adam_ok NM F HK CS P fuel x0) as (G & _). apply (good_hooks_ok _ _ _ _ G). Qed.
+Lemma adam_cons_partial_l (P : ad_params) fuel x0 :
+  ad_point_accepted P (snd (adam_dense NM F HK CS P fuel x0)) (fst (adam_dense NM F HK CS P fuel x0)).
+Proof. apply (adam_ok NM F HK CS P fuel x0). Qed.
+Lemma adam_cap_l (P : ad_params) fuel x0 :
+  (n_evals (snd (adam_dense NM F HK CS P fuel x0)) <= Z.to_nat (ad_maxit P))%nat.
+Proof.
+  destruct (adam_ok NM F HK CS P fuel x0) as (_ & _ & _ & H). rewrite Z.sub_0_r in H. exact H.
 Qed.
 
 (* ---------------------------------------------------------------- pure oracles:
